@@ -101,11 +101,31 @@ class UnitResult:
     def add(self, v, keep=3):
         self.violation_count[v["sig"]] += 1
         if self.violation_count[v["sig"]] <= keep:
+            v["case"] = _portable(v.get("case"))
             self.violations.append(v)
 
     def sample(self, obj, limit=2):
         if len(self.samples) < limit:
             self.samples.append(obj)
+
+
+def _portable(x):
+    """A case description that can cross a process boundary: objects that cannot be pickled (memoryview, generators, open
+    streams) are replaced by a description of themselves."""
+    import pickle
+
+    try:
+        pickle.dumps(x)
+        return x
+    except Exception:
+        pass
+    if isinstance(x, dict):
+        return {k: _portable(v) for k, v in x.items()}
+    if isinstance(x, (list, tuple)):
+        return type(x)(_portable(v) for v in x)
+    if isinstance(x, memoryview):
+        return ("memoryview", x.format, x.tobytes())
+    return repr(x)[:200]
 
 
 class HarnessTimeout(BaseException):
